@@ -56,6 +56,9 @@ BaseFaults == {
   [n |-> "a-sub", stage |-> "lint", fams |-> {"ArgumentCountMismatch"}, form |-> "simple"],
   [n |-> "a-fun", stage |-> "lint", fams |-> {"ArgumentCountMismatch"}, form |-> "simple"],
   [n |-> "a-builtin", stage |-> "lint", fams |-> {"ArgumentCountMismatch"}, form |-> "simple"],
+  [n |-> "a-sub-shift", stage |-> "lint", fams |-> {"ArgumentCountMismatch"}, form |-> "simple"],
+  [n |-> "a-fun-shift", stage |-> "lint", fams |-> {"ArgumentCountMismatch"}, form |-> "simple"],
+  [n |-> "a-sub-extra-front", stage |-> "lint", fams |-> {"ArgumentCountMismatch"}, form |-> "simple"],
   [n |-> "a-builtin2", stage |-> "lint", fams |-> {"ArgumentCountMismatch"}, form |-> "simple"],
   [n |-> "r-div", stage |-> "run", fams |-> {"DivisionByZero"}, form |-> "simple"],
   [n |-> "r-mod", stage |-> "run", fams |-> {"DivisionByZero"}, form |-> "simple"],
